@@ -143,12 +143,19 @@ def symbolsSpec (s : SymSpec) (line ans : String) : SymSpec × String :=
         -- but a COLLIDING file must still be reported and must not be committed
         let reportedNothing := ans.endsWith "reported=[]"
         if collides s f then
-          if reportedNothing then ({ s with diverged := true }, s!"fails collision-not-reported file={f.id}")
-          else if ans.startsWith "ok" then
-            ({ s with diverged := true }, s!"fails colliding-import-returned-nil file={f.id}")
+          -- (an `err` answer without a report is the handler's earlier error: the import was refused
+          -- before the extension check, nothing is committed)
+          if reportedNothing && ans.startsWith "ok" then
+            ({ s with diverged := true }, s!"fails collision-not-reported file={f.id}")
+          -- with a lenient reporter Import may return nil although it reported the collision (the
+          -- caller consults handler.Error()); what matters is that nothing was committed: the next
+          -- `dump` is compared with the successfully imported files only
+          else if reportedNothing then ({ s with diverged := true }, "skip")
           else ({ s with lastFailExt := (ans.splitOn "ext:").length > 1 }, "holds")
         else if reportedNothing && ans.startsWith "ok" then ({ s with good := s.good ++ [f.id] }, "holds")
-        else if reportedNothing then (s, "skip")
+        -- refused because the handler already carried an error (not a collision): the refused file's
+        -- packages may stay registered; what later imports must do is outside the properties
+        else if reportedNothing then ({ s with diverged := true }, "skip")
         else ({ s with diverged := true }, s!"fails spurious-collision file={f.id} {ans}")
       else
       let s := if mode == "shared" && !(ans.endsWith "reported=[]") then { s with sharedFailed := true } else s
